@@ -7,6 +7,7 @@ mod c18;
 mod dec;
 mod lab;
 mod c05;
+mod c05p;
 mod c06;
 mod c07;
 mod c08;
